@@ -121,6 +121,10 @@ def execute(ctx, cases, corr):
             corr["model_disagreements"].append(c)
         if c.oracle_applies and (not c.impl.startswith(c.oracle) if c.oracle_prefix else c.impl != c.oracle):
             corr["oracle_failures"].append(c)
+        elif getattr(c, "same_as", None) is not None and c.same_as.impl is not None and c.impl != c.same_as.impl:
+            # the property itself: this message must decode exactly like its companion
+            c.oracle = "same as: " + c.same_as.hline[:120] + " -> " + c.same_as.impl[:200]
+            corr["oracle_failures"].append(c)
     corr["distinct_nontrivial"] += len(seen)
     step = max(1, len(cases) // 8)
     for c in cases[::step][:8]:
@@ -803,9 +807,91 @@ def cases_c12(ctx, boost):
     return out
 
 
+# =============================================================================== C06
+def host_paths(g, t, path=()):
+    """paths (child indices) of every text-keyed struct under t"""
+    r = g.s.res(t)
+    out = []
+    if "text" in r:
+        out.append(path)
+    if "vec" in r or "filtered" in r:
+        out += host_paths(g, r["elem"], path + (0,))
+    elif "fields" in r:
+        for i, f in enumerate(r["fields"]):
+            out += host_paths(g, f["ty"], path + (i,))
+    return out
+
+
+def deep_item(g, depth):
+    rng = g.rng
+    it = g.rand_unknown_item(2)
+    for _ in range(depth):
+        it = rng.choice([('arr', [it]), ('map', [(('u', 1), it)]), ('tag', rng.choice([1, 24, 1000]), it),
+                         ('arr', [('u', 0), it, ('text', b"x")])])
+    return it
+
+
+def cases_c06(ctx, boost):
+    out = []
+    names = ["transports", "credBlob", "minPinLength", "credProps", "hmac-secret-mc", "prf", "zzz", "a", "Rk", "idx", "name2"]
+    for cfg in ctx.cfgs(("000", "111")):
+        g = ctx.gen(cfg)
+        rng = g.rng
+        for variant, payload in ctx.data["schemas"][cfg]["variants"]["request_variants"]:
+            if not payload or payload == "vendor":
+                continue
+            t = {"named": payload}
+            hosts = host_paths(g, t)
+            for hp in hosts:
+                for attempt in range(8):
+                    v = g.rand_val(t, p_opt=1.0)
+                    base = g.wire_item(t, v, lossy=0.0)
+                    probe = item_at(g, t, base, hp, lambda old: old)
+                    if probe is None:
+                        continue
+                    cb = CMD_BYTE[variant][0]
+                    plain = Case("req", cfg, f"req {cfg} {cb:02x}{casegen.enc_item_ext(base).hex()}", tag=f"{variant} plain")
+                    out.append(plain)
+                    host_item = [None]
+
+                    def grab(old):
+                        host_item[0] = old
+                        return old
+                    item_at(g, t, base, hp, grab)
+                    n_ent = len(host_item[0][1])
+                    for pos in range(n_ent + 1):
+                        for name, val in [(rng.choice(names[:6]), g.rand_unknown_item(3)), (rng.choice(names), deep_item(g, rng.choice([1, 4, 16])))]:
+                            def ins(old, pos=pos, name=name, val=val):
+                                ents = list(old[1])
+                                ents.insert(pos, (('text', name.encode()), val))
+                                return ('map', ents)
+                            it = item_at(g, t, base, hp, ins)
+                            c = Case("req", cfg, f"req {cfg} {cb:02x}{casegen.enc_item_ext(it).hex()}", tag=f"{variant} extra at {'/'.join(map(str, hp))}")
+                            c.same_as = plain
+                            out.append(c)
+                    break
+    return out
+
+
 NOT_YET = {}
 
 PROPS = {
+    "C06": {"ns": "C06", "cases": cases_c06,
+            "level_text": "Proof. G-SKIP (Ctap/SkipThm.lean, skipOne_item): Deserializer::ignore consumes exactly one well-formed "
+                          "definite-length item of any kind — integers of any width, strings, arrays, maps, tags, floats 16/32/64, "
+                          "simple values — at any nesting depth (mutual structural induction on an Item universe; fuel = input "
+                          "length proved sufficient). G-UNK / text_message (Ctap/MsgThm.lean): in a text-keyed struct, entries in "
+                          "any order interleaved at any positions with unknown text-keyed members decode to what the known "
+                          "entries alone decode to (unknown_skipped), consuming exactly the map; lift carries the equality to "
+                          "the enclosing struct. Obligations: the 10 host sites are text-keyed structs with the specification's "
+                          "known keys in all 8 configurations, and the six real-world extra names match no key / alias of any "
+                          "host. Correspondence: an unknown member at every position of every host of every command, values "
+                          "from the full grammar incl. nesting depth 16, compared against the same request without it.",
+            "rule": "every text-keyed struct reachable in a request × every insertion position × {shallow random item, item nested "
+                    "1/4/16 levels} with real-world and arbitrary unknown names; oracle = decodes exactly like the companion "
+                    "message without the extra member",
+            "assumptions": ["unknown keys are text strings (integer / byte-string keys are outside the statement)",
+                            "stack depth of the recursive ignore() is a runtime fact: exercised, not modelled"]},
     "C12": {"ns": "C12", "cases": cases_c12,
             "level_text": "Proof. G-CAP reader theorems (Ctap/CapThm.lean) for every integer / length below 2^64 / 2^32: Bytes<N>, "
                           "String<N>, ByteArray<N>, u8/u32/usize, i32 (either sign) and Vec<T,N> accept exactly the values within "
